@@ -11,7 +11,7 @@ CHECK = {
            'with OTHER element types sharing exactly one side (pairs out of Int->Int, Int->Blob20, Int->Probe, Probe->Int, String->Probe, Probe->Blob20; both size directions), '
            'with two trees also onto B; (table=1) a round trip Tree := Table := A through a filled Table of other element types; afterwards the target must have the '
            'source\'s key/value types and slot sizes, the same bindings byte for byte, and the ledger must show its old contents finalised exactly once '
-           '(rem of an absent key is a self-loop that must raise KeyError and change nothing) on one real Tree over the key universe '
+           '(rem of an absent key is a self-loop that must raise KeyError and change nothing; with the refusing element type Picky also set(k, refused value) for every new and existing key and set(refused key, v): ValueError, tree unchanged node for node, ledger unchanged) on one real Tree over the key universe '
            '0..N-1 (Int keys 0..N-1, wide Int keys {0, 1, -1, +-2^31, +-2^32, 2^31-1, 2^32+1, INT64_MAX, INT64_MIN, 2^62} with the reference order computed on int64, String keys "k00".., Probe keys+values with a constructor/destructor ledger); a state is the concrete '
            'tree: exact shape + colours + keys + values (white-box, Tree.c compiled into the harness), so every reachable red-black '
            'tree over every subset of the universe is visited and every state is re-entered by replaying its shortest history on a '
@@ -65,6 +65,11 @@ CHECK = {
       T('wideint9', 'base', 'keys=wideint', 'nkeys=9', 'nvals=1', 'alias=1', 'cross=1', 'table=1'),
       T('wideint6x2', 'base', 'keys=wideint', 'nkeys=6', 'nvals=2', 'alias=1'),
       T('wideint7-asan', 'asan', 'keys=wideint', 'nkeys=7', 'nvals=1', 'alias=1', 'cross=1', 'table=1'),
+      # refusing element type Picky (its Assign raises ValueError for one value): set(k, refused value) for new and existing keys, set(refused key, v)
+      T('int-picky6x2', 'base', 'keys=int', 'vals=picky', 'nkeys=6', 'nvals=2', 'alias=1'),
+      T('picky-int7', 'base', 'keys=picky', 'vals=int', 'nkeys=7', 'nvals=1'),
+      T('picky-picky5x2-asan', 'asan', 'keys=picky', 'vals=picky', 'nkeys=5', 'nvals=2'),
+      T('int-picky5x2-asan', 'asan', 'keys=int', 'vals=picky', 'nkeys=5', 'nvals=2'),
       # cross-type assignment family: targets constructed/filled with other element types (and a Table round trip)
       T('int-int8-cross', 'base', 'keys=int', 'vals=int', 'nkeys=8', 'nvals=1', 'cross=1', 'table=1'),
       T('int-int5x2-cross-asan', 'asan', 'keys=int', 'vals=int', 'nkeys=5', 'nvals=2', 'cross=1', 'table=1', 'alias=1'),
@@ -107,6 +112,11 @@ CHECK = {
       T('wideint12', 'base', 'keys=wideint', 'nkeys=12', 'nvals=1', 'alias=1', 'cross=1', 'table=1'),
       T('wideint8x2', 'base', 'keys=wideint', 'nkeys=8', 'nvals=2', 'alias=1'),
       T('wideint10-asan', 'asan', 'keys=wideint', 'nkeys=10', 'nvals=1', 'alias=1', 'cross=1', 'table=1'),
+      # refusing element type Picky
+      T('int-picky8x2', 'base', 'keys=int', 'vals=picky', 'nkeys=8', 'nvals=2', 'alias=1'),
+      T('picky-int10', 'base', 'keys=picky', 'vals=int', 'nkeys=10', 'nvals=1'),
+      T('picky-picky7x2-asan', 'asan', 'keys=picky', 'vals=picky', 'nkeys=7', 'nvals=2'),
+      T('int-picky7x2-asan', 'asan', 'keys=int', 'vals=picky', 'nkeys=7', 'nvals=2'),
       # cross-type assignment family
       T('int-int11-cross', 'base', 'keys=int', 'vals=int', 'nkeys=11', 'nvals=1', 'cross=1', 'table=1'),
       T('int-int7x2-cross-asan', 'asan', 'keys=int', 'vals=int', 'nkeys=7', 'nvals=2', 'cross=1', 'table=1', 'alias=1'),
